@@ -25,6 +25,7 @@ type Val struct {
 	Lazy  types.Type // contract name of a captured variable: the value is loaded from T when used
 	ConstLen int // for slices of a fresh fixed-size array: length+1
 	IsType bool // type expression in a contract (Typ holds it)
+	Zero  bool // the value is syntactically the zero value of its type (an ssa.Const without value), e.g. time.Time{}
 	Pkg   *types.Package
 }
 
@@ -125,6 +126,7 @@ type Unit struct {
 	localWrites []localWrite
 	repoCallees map[string]bool // contracts of /repo functions and interfaces assumed at call sites
 	epochFrames map[int]*epochFrame
+	Inlined  map[string]bool // /repo functions verified inside this unit by inlining
 }
 
 // epochFrame records a havoc of one object only (havocObject): in that epoch every component agrees with its
